@@ -114,15 +114,37 @@ func checkC15(r *core.Run) {
 				r.Check(strings.HasSuffix(a, ".BranchType") && strings.Contains(a, ".Body.(type)"), "C15.route", key+" -> GetResourceManager(request.BranchType)", w.Pos(cp.Call.Pos()), a, "the resource manager is chosen by "+a+", not by the request's branch type")
 			case inSet("action", cp.Tags...):
 				nAct++
+				c15ActionOrigin = originVia(f, cp.Fn, cp.Call, 4)
 				r.Sites++
 				r.Check(!cp.InLoop && !cp.Before.Maybe("action"), "C15.once", key+" -> "+ps.inbound+" once", w.Pos(cp.Call.Pos()), "one manager call per request", "the manager is called more than once per request")
 				// the BranchResource handed over echoes the request
-				if len(cp.Call.Args) == 2 {
+				if len(cp.Call.Args) >= 2 {
 					at := cp.Fn
 					if at == nil {
 						at = f
 					}
-					if cl := findCompositeLit(at, cp.Call.Args[1]); cl != nil {
+					// (with a method expression the receiver comes first)
+					resArg := cp.Call.Args[len(cp.Call.Args)-1]
+					cl := findCompositeLit(at, resArg)
+					if cl == nil && at != f {
+						// the resource is a parameter of the helper: the literal the processor passes for it
+						if id, ok := ast.Unparen(resArg).(*ast.Ident); ok {
+							for pi, p := range paramObjs(at) {
+								if at.Pkg.TypesInfo.Uses[id] != p {
+									continue
+								}
+								ast.Inspect(f.Decl.Body, func(m ast.Node) bool {
+									if c, ok := m.(*ast.CallExpr); ok && sameFunc(core.Callee(info, c), at.Obj) && pi < len(c.Args) {
+										if l := findCompositeLit(f, c.Args[pi]); l != nil {
+											cl, at = l, f
+										}
+									}
+									return true
+								})
+							}
+						}
+					}
+					if cl != nil {
 						for fld, want := range map[string]string{"Xid": "Xid", "BranchId": "BranchId", "ResourceId": "ResourceId", "ApplicationData": "ApplicationData"} {
 							o := originVia(f, at, litField(cl, fld), 4)
 							r.Sites++
@@ -137,11 +159,58 @@ func checkC15(r *core.Run) {
 				if len(cp.Call.Args) == 2 {
 					id := originVia(f, cp.Fn, cp.Call.Args[0], 3)
 					r.Check(rpcParam != nil && id == "param:"+rpcParam.Name()+".ID", "C15.echo", key+" reply id is the request's message id", w.Pos(cp.Call.Pos()), id, "the reply is addressed with "+id+" instead of the incoming message's ID")
-					cl := findCompositeLit(f, cp.Call.Args[1])
-					if cl == nil {
-						r.Undecided("C15.echo", key+" response literal", w.Pos(cp.Call.Pos()), "the response is not a composite literal")
-					} else {
+					at := cp.Fn
+					if at == nil {
+						at = f
+					}
+					cl := findCompositeLit(at, cp.Call.Args[1])
+					switch {
+					case cl != nil && at == f:
 						c15Response(r, f, cl, key)
+					case cl != nil:
+						c15ResponseIn(r, f, cl, at, func(o string) string { return originViaStr(f, at, o, 4) }, key)
+					default:
+						// the response is built by a function stored in a field of the handler object the processor
+						// delegates to (`response := h.newResponse(part)`): its literal, with the parameter replaced
+						done := false
+						if id, ok := ast.Unparen(cp.Call.Args[1]).(*ast.Ident); ok {
+							if v, ok := at.Pkg.TypesInfo.Uses[id].(*types.Var); ok {
+								if defs := localDefs(at, v); len(defs) == 1 {
+									if bc, ok := ast.Unparen(defs[0].rhs).(*ast.CallExpr); ok {
+										if lit, _, lp := fieldFuncOf(f, at, bc); lit != nil {
+											if h := litFuncInfo(lp, lit); h != nil {
+												var rets []*ast.ReturnStmt
+												ast.Inspect(lit.Body, func(n ast.Node) bool {
+													if rs, ok := n.(*ast.ReturnStmt); ok {
+														rets = append(rets, rs)
+													}
+													return true
+												})
+												if len(rets) == 1 && len(rets[0].Results) == 1 {
+													if inner := findCompositeLit(h, rets[0].Results[0]); inner != nil {
+														trAt := func(o string) string { return originViaStr(f, at, o, 4) }
+														c15ResponseIn(r, f, inner, h, func(o string) string {
+															return trAt(substParams(o, h, bc, at, 4))
+														}, key, c15Bind{in: h, caller: at, tr: trAt, arg: func(v types.Object) ast.Expr {
+															for i, p := range paramObjs(h) {
+																if p == v && i < len(bc.Args) {
+																	return bc.Args[i]
+																}
+															}
+															return nil
+														}})
+														done = true
+													}
+												}
+											}
+										}
+									}
+								}
+							}
+						}
+						if !done {
+							r.Undecided("C15.echo", key+" response literal", w.Pos(cp.Call.Pos()), "the response is not a composite literal")
+						}
 					}
 				}
 			}
@@ -186,6 +255,15 @@ func checkC15(r *core.Run) {
 		sp2.Analyze(f)
 		_ = rcVar
 		_ = reqVar
+		// every request is answered: a nil return has called the manager and sent the reply (a request that is
+		// dropped silently — "already in progress", "nothing to do" — gets no reply at all and is never finished)
+		for _, ex := range res.Exits {
+			if ex.Class == flow.ExitOK {
+				r.Sites++
+				r.Check(ex.St.Has("ok:action") && ex.St.Has("respond"), "C15.once", key+" "+exitRole(ex, func(t string) bool { return t == "ok:action" || t == "respond" })+" answered the request", w.Pos(ex.Pos),
+					"nil only after the manager returned a status and the reply was sent", "the processor returns nil on a path that has not called the manager and sent the reply: the request is dropped without an answer")
+			}
+		}
 		// error path: no response with a status, error returned
 		for _, ex := range res.Exits {
 			if ex.St.Has("fail:action") {
@@ -227,6 +305,90 @@ func checkC15(r *core.Run) {
 }
 
 func c15Response(r *core.Run, f *core.FuncInfo, cl *ast.CompositeLit, key string) {
+	c15ResponseIn(r, f, cl, f, func(o string) string { return o }, key)
+}
+
+// c15ActionOrigin: the origin text (in the processor's terms) of the manager call of the processor being checked
+var c15ActionOrigin string
+
+// projectLitField reduces `lit:T{field:A: x, field:B: y}.B` (a field read from a struct literal that travelled
+// through a parameter) to y.
+func projectLitField(o string) string {
+	for i := 0; i < 4; i++ {
+		if !strings.HasPrefix(o, "lit:") {
+			return o
+		}
+		open := strings.Index(o, "{")
+		if open < 0 {
+			return o
+		}
+		depth, end := 0, -1
+		for j := open; j < len(o); j++ {
+			switch o[j] {
+			case '{', '(', '[':
+				depth++
+			case '}', ')', ']':
+				depth--
+				if depth == 0 && o[j] == '}' {
+					end = j
+				}
+			}
+			if end >= 0 {
+				break
+			}
+		}
+		if end < 0 || end+1 >= len(o) || o[end+1] != '.' {
+			return o
+		}
+		rest := o[end+2:]
+		name := rest
+		tail := ""
+		if k := strings.IndexAny(rest, ".#"); k >= 0 {
+			name, tail = rest[:k], rest[k:]
+		}
+		body := o[open+1 : end]
+		// split at top-level ", "
+		var parts []string
+		d, start := 0, 0
+		for j := 0; j < len(body); j++ {
+			switch body[j] {
+			case '{', '(', '[':
+				d++
+			case '}', ')', ']':
+				d--
+			case ',':
+				if d == 0 {
+					parts = append(parts, strings.TrimSpace(body[start:j]))
+					start = j + 1
+				}
+			}
+		}
+		parts = append(parts, strings.TrimSpace(body[start:]))
+		found := ""
+		for _, p := range parts {
+			if strings.HasPrefix(p, "field:"+name+": ") {
+				found = strings.TrimPrefix(p, "field:"+name+": ")
+			}
+		}
+		if found == "" {
+			return o
+		}
+		o = found + tail
+	}
+	return o
+}
+
+// c15Bind: the parameters of function in are bound to the arguments of a call in caller (origins there translated by tr)
+type c15Bind struct {
+	in     *core.FuncInfo
+	caller *core.FuncInfo
+	arg    func(v types.Object) ast.Expr
+	tr     func(string) string
+}
+
+// c15ResponseIn: the response literal cl is written in function in0 (the processor itself, a helper it delegates
+// to, or a function literal stored in a handler object); tr0 translates an origin in in0's terms into f's.
+func c15ResponseIn(r *core.Run, f *core.FuncInfo, cl *ast.CompositeLit, in0 *core.FuncInfo, tr0 func(string) string, key string, binds ...c15Bind) {
 	w := r.W
 	// flatten nested literals; a nested part may come from a constructor helper of the package
 	// (AbstractBranchEndResponse: newBranchEndResponse(xid, id, status, err)): its literal is read with the
@@ -246,6 +408,17 @@ func c15Response(r *core.Run, f *core.FuncInfo, cl *ast.CompositeLit, key string
 			if inner := findCompositeLit(in, val); inner != nil {
 				walk(inner, in, tr, depth)
 				continue
+			}
+			// a parameter of the function the literal is written in, bound to what its caller passes
+			if id, ok := val.(*ast.Ident); ok && len(binds) > 0 && in == binds[0].in {
+				if v := in.Pkg.TypesInfo.Uses[id]; v != nil {
+					if e := binds[0].arg(v); e != nil {
+						if inner := findCompositeLit(binds[0].caller, e); inner != nil {
+							walk(inner, binds[0].caller, binds[0].tr, depth)
+							continue
+						}
+					}
+				}
 			}
 			if call, ok := val.(*ast.CallExpr); ok && depth > 0 {
 				if h := w.Info(core.Callee(in.Pkg.TypesInfo, call)); h != nil && h.Pkg == in.Pkg && h.Decl.Body != nil && h != in {
@@ -272,10 +445,10 @@ func c15Response(r *core.Run, f *core.FuncInfo, cl *ast.CompositeLit, key string
 			}
 		}
 	}
-	walk(cl, f, func(o string) string { return o }, 2)
+	walk(cl, in0, tr0, 2)
 	for fld, want := range map[string]string{"Xid": ".Body.(type).Xid", "BranchId": ".Body.(type).BranchId"} {
 		r.Sites++
-		o := fields[fld]
+		o := projectLitField(fields[fld])
 		if o == "" {
 			o = "<none>"
 		}
@@ -286,7 +459,7 @@ func c15Response(r *core.Run, f *core.FuncInfo, cl *ast.CompositeLit, key string
 	if o == "" {
 		o = "<none>"
 	}
-	r.Check(strings.HasPrefix(o, "call:pkg/rm.(ResourceManagerInbound).") && strings.HasSuffix(o, "#0"), "C15.echo", key+" response.BranchStatus is the manager's result", w.Pos(cl.Pos()), o, "the response's BranchStatus derives from "+o+", not from the status the manager returned")
+	r.Check((strings.HasPrefix(o, "call:pkg/rm.(ResourceManagerInbound).") || (c15ActionOrigin != "" && o == c15ActionOrigin+"#0")) && strings.HasSuffix(o, "#0"), "C15.echo", key+" response.BranchStatus is the manager's result", w.Pos(cl.Pos()), o, "the response's BranchStatus derives from "+o+", not from the status the manager returned")
 }
 
 // c15ManagerTruth: TCC and XA managers — success constants only where the action is known to have succeeded.
